@@ -198,6 +198,14 @@ def run_program(rec, hub, seed_rng, steps, letters="abcd", ill_rate=0.3, props=(
                 lmd = fd.DimensionSet(dim_list=[Ut["t"]] + ([] if len(sl) > 1 else [U[letters[0]]]))
                 lm = fd.NormalLifetime(dims=lmd, time_letter="t", mean=3.0, std=1.0)
                 return ("stock: lifetime model dims differ", None, [lambda: fd.StockDrivenDSM(dims=ds, lifetime_model=lm, time_letter="t")])
+            if c == 4 and rng.random() < 0.5:
+                foreign = [l for l in letters if l not in sl]
+                if foreign:
+                    pa = fd.FlodymArray(dims=gen.dimset(fd, U, (foreign[0],)), values=np.full(gen.shape_of(U, (foreign[0],)), 3.0))
+                    if rng.random() < 0.5:
+                        return ("lifetime: parameter over a foreign dimension", None, [lambda: fd.NormalLifetime(dims=ds, time_letter="t", mean=pa, std=1.0)])
+                    lm2 = fd.WeibullLifetime(dims=ds, time_letter="t")
+                    return ("lifetime: set_prms with a foreign dimension", None, [lambda: lm2.set_prms(weibull_shape=pa, weibull_scale=2.0)])
             if c == 4:
                 return ("stock: wrong time letter", None, [lambda: fd.SimpleFlowDrivenStock(dims=ds, time_letter=sl[-1] if len(sl) > 1 else "x")])
 
